@@ -64,7 +64,7 @@ func init() {
 	core.Register(&core.Check{
 		Spec: core.Spec{
 			Prop:        "C01",
-			Rule:        "Random multi-node scenarios (1-5 real nodes; proposals valid and overdrawing at boundary amounts; harness-sealed vertices on tips, stale and equal parents; replays; concurrent proposal blocks; trusted sealers; delayed/partitioned delivery; orphan retries). After every operation the node is snapshotted; every vertex that became confirmed (declared as parent by a live vertex, or checkpointed) is evaluated once with big integers: inflow(issuer) over its full-history ancestors plus the checkpoint must cover its other spends there plus its amount (trusted-sealed, genesis, non-spice exempt). Dropped tips must lose their index entry. Fixed scenarios in every run: the witness of the known finding (double spend checkpointed, then a fresh spend); a 1040-vertex chain with two side tips on the 5th vertex (one overdrawing, one covered) whose parents get checkpointed, then proposals (a tip that is a root of the live graph must still pass the funds test); a truncation cancelled half way followed by further attempts and overdrawing traffic. Non-trivial = confirmation whose issuer has other spends in that history or whose margin is below the amount, and every dropped tip; distinct by (operation, validation path, verdict, amount class, prior spends). Also fixed: a wallet that received 10 and spent 8 long ago spends 3 in a tentative tip; a truncation starts from that tip while 24 proposals race with it (whoever validates the tip, before, during or after the cut, must count the checkpointed part once). Also fixed: a wallet drained to exactly zero between two truncations, then the overspend probes (it must not be able to spend a single unit).",
+			Rule:        "Random multi-node scenarios (1-5 real nodes; proposals valid and overdrawing at boundary amounts; harness-sealed vertices on tips, stale and equal parents; replays; concurrent proposal blocks; trusted sealers; delayed/partitioned delivery; orphan retries). After every operation the node is snapshotted; every vertex that became confirmed (declared as parent by a live vertex, or checkpointed) is evaluated once with big integers: inflow(issuer) over its full-history ancestors plus the checkpoint must cover its other spends there plus its amount (trusted-sealed, genesis, non-spice exempt). Dropped tips must lose their index entry. Fixed scenarios in every run: the witness of the known finding (double spend checkpointed, then a fresh spend); a 1040-vertex chain with two side tips on the 5th vertex (one overdrawing, one covered) whose parents get checkpointed, then proposals (a tip that is a root of the live graph must still pass the funds test); a truncation cancelled half way followed by further attempts and overdrawing traffic. Non-trivial = confirmation whose issuer has other spends in that history or whose margin is below the amount, and every dropped tip; distinct by (operation, validation path, verdict, amount class, prior spends). Also fixed: a wallet that received 10 and spent 8 long ago spends 3 in a tentative tip; a truncation starts from that tip while 24 proposals race with it (whoever validates the tip, before, during or after the cut, must count the checkpointed part once). Also fixed: a wallet drained to exactly zero between two truncations, then the overspend probes (it must not be able to spend a single unit). The trusted-node exemption is granted only to sealers the harness itself made trusted on that node.",
 			Assumptions: []string{ledgerAssume},
 			MinEvals:    300, MinNontriv: 10,
 		},
@@ -112,7 +112,7 @@ func init() {
 	core.Register(&core.Check{
 		Spec: core.Spec{
 			Prop:        "C09",
-			Rule:        "Same scenario engine. After every operation the snapshot must be a well-formed DAG: declared-parent graph acyclic (Kahn); every live non-genesis vertex has an edge from each distinct declared parent that is live and from nothing else; a declared parent that is not live is checkpointed; graph id = storage key = vertex hash; hash, sealing, issuer and receiver signatures recompute (harness's own rendering and the node's own verify). Every vertex returned by CreateLeaf references tips of the previous snapshot that survived the call and has weight max(parents)+1; a failed add leaves no new vertex or index entry. After every scenario a fresh node syncs from node 0 and is held to the same structural oracle. One batch runs a two-node 1060-vertex ledger through a truncation and 60 hostile operations afterwards (weights above 1000, checkpointed parents); another cancels a truncation in the middle of its persisting walk and lets further truncations follow. Non-trivial = every snapshot after a mutating operation; distinct by (operation, outcome, tip/live/parked buckets). A dedicated workload lets 2-5 copies of one gossiped vertex race each other while its child is delivered as soon as the vertex is visible and one transaction is proposed twice at once: a refused copy must take nothing with it. Altered copies (amount, receiver, data, parents) of a vertex the node verified, admitted and then dropped are offered under the genuine hash and signatures: they must be refused. Parents created ahead of and behind the node's clock (1 ms to 30 days).",
+			Rule:        "Same scenario engine. After every operation the snapshot must be a well-formed DAG: declared-parent graph acyclic (Kahn); every live non-genesis vertex has an edge from each distinct declared parent that is live and from nothing else; a declared parent that is not live is checkpointed; graph id = storage key = vertex hash; hash, sealing, issuer and receiver signatures recompute (harness's own rendering and the node's own verify). Every vertex returned by CreateLeaf references tips of the previous snapshot that survived the call and has weight max(parents)+1; a failed add leaves no new vertex or index entry. After every scenario a fresh node syncs from node 0 and is held to the same structural oracle. One batch runs a two-node 1060-vertex ledger through a truncation and 60 hostile operations afterwards (weights above 1000, checkpointed parents); another cancels a truncation in the middle of its persisting walk and lets further truncations follow. Non-trivial = every snapshot after a mutating operation; distinct by (operation, outcome, tip/live/parked buckets). A dedicated workload lets 2-5 copies of one gossiped vertex race each other while its child is delivered as soon as the vertex is visible and one transaction is proposed twice at once: a refused copy must take nothing with it. Altered copies (amount, receiver, data, parents) of a vertex the node verified, admitted and then dropped are offered under the genuine hash and signatures: they must be refused. Parents created ahead of and behind the node's clock (1 ms to 30 days). Vertices whose seal does not recompute (six alterations) for every kind of transaction, countersigned ones included, on known parents and before the parent.",
 			Assumptions: []string{ledgerAssume},
 			MinEvals:    300, MinNontriv: 10,
 		},
